@@ -237,9 +237,6 @@ func jobsFor(prop, tier string) []*Job {
 		}
 	case "C14":
 		k := 3
-		if thorough {
-			k = 4
-		}
 		caps := []int{2, 3}
 		for _, c := range caps {
 			add(&Job{Name: fmt.Sprintf("O3-evict/capacity=%d", c), Pkg: "internal/holsterv4/collections", Harness: "VerifC14Evict", Grid: 1e9, Params: p("capacity", c, "t0span", 3), TimeoutS: 120,
